@@ -38,6 +38,8 @@ def _case(draw, max_nodes):
     c["inject_pick"] = draw(st.integers(0, 31))
     # the same program with its functions declared under swapped parameter names and renamed back in one call
     c["declared_swapped"] = prob(draw, 0.3)
+    # side-effect-only nodes written as generator functions (streaming / logging style): their body runs when drained
+    c["side_effect_generators"] = prob(draw, 0.3)
     return c
 
 
@@ -86,7 +88,10 @@ def _oracle(tag, case, out, ctx, env, args, ss, select, allow_extra=frozenset())
 def check_case(case, ev):
     nodes = case["nodes"]
     select = case.get("select")
-    gspec = {"nodes": gen.present(nodes, "swap", keep_fid=True) if case.get("declared_swapped") else nodes, "bind": case["bind"], "select": select}
+    built = gen.present(nodes, "swap", keep_fid=True) if case.get("declared_swapped") else nodes
+    if case.get("side_effect_generators"):
+        built = [({**n, "gen_style": True, "agen": True} if n["k"] == "func" and not n.get("outs") else n) for n in built]
+    gspec = {"nodes": built, "bind": case["bind"], "select": select}
     env, args, values, bound = _expected(case)
     ss = ref.single_shot(nodes, values, bound)
     labels, nedges = ref.shape_labels(nodes)
@@ -99,6 +104,8 @@ def check_case(case, ev):
         labels.add("select")
     if any("ret" in n for n in nodes):
         labels.add("falsy_or_None_output")
+    if case.get("side_effect_generators") and any(not n.get("outs") for n in nodes):
+        labels.add("side_effect_only_generator_node")
     if case.get("declared_swapped") and any(len(n["params"]) >= 2 for n in nodes):
         labels.add("declared_under_swapped_parameter_names")
 
